@@ -386,6 +386,11 @@ func buildPool(ev *env, r *rand.Rand, target int) *pool {
 	put(vStruct(point, "a", one, "b", strA))
 	put(vStruct(def, "a", one, "c", strA))
 	put(vStruct(def, "a", one))
+	put(vStruct(def, "b", one)) // differs in the (first) field name only
+	put(vStruct(def, "a", one, "b", two))
+	put(vStruct(def, "b", one, "c", two)) // same values, both names differ
+	put(vm{starlarkstruct.FromKeywords(starlarkstruct.Default, []starlark.Tuple{{starlark.String("b"), strA.v}, {starlark.String("a"), onef.v}}),
+		mStruct(def.m, []string{"a", "b"}, []*model{onef.m, strA.m}), "struct(b=\"a\", a=1.0) via FromKeywords in reverse order"})
 	put(vStruct(def, "a", vList(one)))
 	put(vStruct(def, "a", vList(onef)))
 	put(vStruct(def, "a", vStruct(def, "a", one)))
@@ -450,6 +455,11 @@ func buildPool(ev *env, r *rand.Rand, target int) *pool {
 	put(vDict(one, strA))
 	put(vDict(onef, strA))
 	put(vDict(one, strB))
+	put(vDict(one, one))
+	put(vDict(onef, onef))
+	put(vDict(one, vm{starlark.True, mBool(true), "True"}))
+	put(vDict(one, vList(one)))
+	put(vDict(one, vTuple(one)))
 	put(vDict(one, strA, two, strB))
 	put(vDict(two, strB, one, strA)) // other insertion order
 	put(vDict(two, strB, onef, strA))
